@@ -1,6 +1,7 @@
 (** Pinned statements of the C06 property theorems: compiled on every check, so a theorem cannot be
     weakened silently. *)
-From V Require Import Base.Util Gen.C06_tables_gen C06.Model C06.Spec C06.Proofs C06.ProofsMap C06.ProofsWriter C06.ProofsCli C06.ProofsDefs C06.Corr C06.ProofsCorr C06.Properties.
+From V Require Import Base.Util Gen.C06_tables_gen C06.Model C06.Spec C06.Proofs C06.ProofsMap C06.ProofsWriter C06.ProofsCli C06.ProofsDefs C06.ProofsDefsSchema C06.Corr C06.ProofsCorr C06.Properties C06.PropertiesDefs.
+From V Require Gql.Ast Ts.TsType C10.Model C10.SitesForC06.
 From V Require C14.Model.
 
 Check (C06_alphabet_decodes :
@@ -113,6 +114,28 @@ Check (C06_operation_definitions_are_mapped :
      C14.Model.pbuiltin p = false ->
      mapped_in fmap st (name ++ C14.Model.fragment_type_suffix t) (conv_pos p) name /\
      mapped_in fmap st (C14.Model.fragment_var (C14.Model.t_base t) name) (conv_pos p) name)).
+Check (C06_schema_definitions_are_mapped :
+  forall fmap o doc ops st,
+  C10.Model.print_schema o doc = C10.Model.Ok ops ->
+  sw_run fmap (map conv_wop10 ops) = Some st ->
+  (forall td, In td (C10.Model.typedefs doc) -> Gql.Ast.pbuiltin (Gql.Ast.ipos (Gql.Ast.typedef_name td)) = false ->
+     mapped_in fmap st (C10.SitesForC06.declared_name o doc (C10.Model.tname td))
+               (conv_pos10 (Gql.Ast.ipos (Gql.Ast.typedef_name td))) (C10.Model.tname td)) /\
+  (forall d p n impls dirs fields kw fd,
+     In (Gql.Ast.TDObject d p n impls dirs fields kw) (C10.Model.typedefs doc) -> In fd fields ->
+     Ts.TsType.is_raw_ident (Gql.Ast.iname (Gql.Ast.fd_name fd)) = true -> Gql.Ast.pbuiltin (Gql.Ast.ipos (Gql.Ast.fd_name fd)) = false ->
+     mapped_in fmap st (Gql.Ast.iname (Gql.Ast.fd_name fd)) (conv_pos10 (Gql.Ast.ipos (Gql.Ast.fd_name fd))) (Gql.Ast.iname (Gql.Ast.fd_name fd))) /\
+  (forall d p n dirs fields kw iv,
+     In (Gql.Ast.TDInput d p n dirs fields kw) (C10.Model.typedefs doc) -> In iv fields ->
+     Ts.TsType.is_raw_ident (Gql.Ast.iname (Gql.Ast.iv_name iv)) = true -> Gql.Ast.pbuiltin (Gql.Ast.ipos (Gql.Ast.iv_name iv)) = false ->
+     mapped_in fmap st (Gql.Ast.iname (Gql.Ast.iv_name iv)) (conv_pos10 (Gql.Ast.ipos (Gql.Ast.iv_name iv))) (Gql.Ast.iname (Gql.Ast.iv_name iv)))).
+Check (C06_resolver_definitions_are_mapped :
+  forall fmap o doc ops st,
+  C10.Model.print_resolvers o 0 doc = C10.Model.Ok ops ->
+  sw_run fmap (map conv_wop10 ops) = Some st ->
+  forall td, In td (C10.Model.typedefs doc) -> C10.Model.is_input_def td = false ->
+    Gql.Ast.pbuiltin (Gql.Ast.ipos (Gql.Ast.typedef_name td)) = false ->
+    mapped_in fmap st (C10.Model.tname td) (conv_pos10 (Gql.Ast.ipos (Gql.Ast.typedef_name td))) (C10.Model.tname td)).
 
 Print Assumptions C06_alphabet_decodes.
 Print Assumptions C06_alphabet_injective.
@@ -137,3 +160,5 @@ Print Assumptions C06_imported_fragment_mapped.
 Print Assumptions C06_sources_in_range_guard_needed.
 Print Assumptions C06_named_write_for_mapped.
 Print Assumptions C06_operation_definitions_are_mapped.
+Print Assumptions C06_schema_definitions_are_mapped.
+Print Assumptions C06_resolver_definitions_are_mapped.
